@@ -8,6 +8,12 @@ that is parsed with DIP.parse) and compared with a reference evaluator over the 
 (mc/refmodels/dip_expr_ref.py: exact Fraction arithmetic with a propagated error scale, documented priorities,
 Python format()).
 
+Two further dimensions: (a) comparisons on magnitudes far below 1e-8 in the unit of the typed node (1e-9 m, 2 nm,
+4e-12; the tolerance is relative, so absolute differences of 1e-19 .. 1e-8 decide exactly as they do around 1);
+(b) sequences of DOCUMENTS in one process that define the custom unit symbol [len] differently (2 m, 5 m, 10 cm, 3 s;
+in the text or with DIP.add_unit): every document is checked against its own definition, module / class level state
+of the library is restored around each sequence so that a sequence is one self-contained, replayable case.
+
 Not demanded (left out of the alphabets on purpose; the statement / documentation is silent or ambiguous there):
   * comparisons between two anonymous literals, comparisons across dimensions (docs say "false", code refuses),
     comparisons between an int node and a float node (the code refuses them on purpose), zero operands;
@@ -40,12 +46,14 @@ LEVEL = "exploration"
 RULE = ("case = (sub-check, environment/header variant, rendered expression text, requested unit); every derivation "
         "of the bounded grammars is enumerated once (families are disjoint by construction and de-duplicated by a "
         "hash of the case); non-trivial = numerical: >= 1 binary operator or function application, logical: >= 1 "
-        "comparison / negation / definedness test / connective, template: >= 1 reference")
+        "comparison / negation / definedness test / connective, template: >= 1 reference; history: one ordered "
+        "sequence of solver calls on one environment; unit-redefinition: one ordered sequence of documents (definition "
+        "of [len] x way of defining it) with the whole probe set evaluated in every document")
 ASSUMPTIONS = [
     "the reference evaluators (exact Fractions, first-order error scale, tolerance 1e-12*scale; Python format()) and "
     "the renderers in mc/refmodels/dip_expr_ref.py are trusted; they interpret the generator's AST and share no code "
     "with the library",
-    "the factors of the unit alphabet (m, cm, mm, s, rad, mrad, [len]=2 m, [hand]=10 cm; deg = the published table "
+    "the factors of the unit alphabet (m, cm, mm, nm, km, s, rad, mrad, [len]=2 m (document sequences: 2 m / 5 m / 10 cm / 3 s), [hand]=10 cm; deg = the published table "
     "value 1.7453292e-2) are written out by hand in the reference model",
     "the value of a node after modifications (last assignment wins, in the unit of the definition - property C14) is "
     "written out by hand in the node table",
@@ -81,6 +89,13 @@ _NODES = [
     ("track", "int", 1000000, "mm", "track int = 1000000 mm"),
     ("tiny", "float", 0.001, "m", "tiny float = 0.001 m"),
     ("big", "float", 5000000.0, "m", "big float = 5000000 m"),
+    # magnitudes far below 1e-8 in the unit of the node (an absolute tolerance of the size of numpy's default would
+    # decide there instead of the relative one)
+    ("gap", "float", 1e-9, "m", "gap float = 1e-9 m"),
+    ("wide", "float", 3e-9, "m", "wide float = 3e-9 m"),
+    ("gap2", "float", 2.0, "nm", "gap2 float = 2 nm"),
+    ("rate", "float", 4e-12, None, "rate float = 4e-12"),
+    ("rate2", "float", 8e-12, None, "rate2 float = 8e-12"),
     ("ang", "float", 30.0, "deg", "ang float = 30 deg"),
     ("slope", "int", 45, "deg", "slope int = 45 deg"),
     ("f", "bool", True, None, "f bool = true"),
@@ -161,6 +176,8 @@ def init_worker():
     _LIVE.clear()
     for e in ENVS:
         _REF[e] = ref_env(e)
+    if _MODSTATE is None:
+        _modstate_snapshot()
 
 
 def _live(envname):
@@ -521,6 +538,19 @@ def _cmp_pairs(custom):
                num("4000100"), num("4000000.0")]
     tr_lits = [num("1000000", "mm"), num("1000000.4", "mm"), num("999999.6", "mm"), num("1.0000002", "km"),
                num("0.9999998", "km"), num("1000.0003", "m"), num("1", "km"), num("1.01", "km")]
+    # magnitudes of 1e-9 / 4e-12 in the unit of the node: equal, offsets 1e-10 / 2e-5 / 1e-3 relative, factors 2, 5,
+    # 10, 1250 (absolute differences between 1e-19 and 1e-8, all far below numpy's default atol), literals written
+    # in the unit of the node and in a unit in which the numbers are of order one
+    gap_lits = [num("1", "nm"), num("1e-9", "m"), num("1.0000000001", "nm"), num("1.0000000001e-9", "m"),
+                num("1.00002", "nm"), num("0.99998", "nm"), num("1.00002e-9", "m"), num("1.001", "nm"),
+                num("2", "nm"), num("2e-9", "m"), num("5", "nm"), num("0.5", "nm"), num("1e-8", "m"),
+                num("1.5e-8", "m"), num("1e-12", "km")]
+    gap2_lits = [num("2", "nm"), num("1", "nm"), num("2e-9", "m"), num("1e-9", "m"), num("2.00004e-9", "m")]
+    rate_lits = [num("4e-12"), num("8e-12"), num("1e-12"), num("4.0000000004e-12"), num("4.00008e-12"),
+                 num("3.99992e-12"), num("4.004e-12"), num("5e-9"), num("1e-7"), num("0.000000000004")]
+    for n, lits in (("gap", gap_lits), ("gap2", gap2_lits), ("rate", rate_lits)):
+        for l in lits:
+            P.append((node(n), l))
     for n, lits in (("a", a_lits), ("c", c_lits), ("b", b_lits), ("k", k_lits), ("x", x_lits), ("wm", wm_lits),
                     ("wt", wt_lits), ("ws", ws_lits), ("cnt", cnt_lits), ("tiny", tiny_lits), ("big", big_lits),
                     ("k3", k3_lits), ("pixels", px_lits), ("track", tr_lits)):
@@ -545,7 +575,10 @@ def _cmp_pairs(custom):
           ("wm", "wm"), ("cnt", "cnt"),
           # two integer nodes in different units: the conversion of either side has a fractional result
           ("k3", "k2"), ("k2", "k3"), ("k", "k2"), ("k2", "k"), ("k3", "k4"), ("k4", "k3"), ("ms", "k2"), ("k2", "ms"),
-          ("ms", "k3"), ("k3", "ms"), ("ms", "k"), ("k", "ms"), ("k", "k3"), ("k3", "k"), ("k2", "k4"), ("ms", "k4")]
+          ("ms", "k3"), ("k3", "ms"), ("ms", "k"), ("k", "ms"), ("k", "k3"), ("k3", "k"), ("k2", "k4"), ("ms", "k4"),
+          # tiny magnitudes: same unit, and the left node converted to the unit of the right one (m -> nm, nm -> m)
+          ("gap", "wide"), ("wide", "gap"), ("gap", "gap"), ("gap", "gap2"), ("gap2", "gap"), ("wide", "gap2"),
+          ("gap2", "wide"), ("rate", "rate2"), ("rate2", "rate"), ("rate", "rate"), ("gap", "tiny"), ("tiny", "gap")]
     if custom:
         NN += [("a", "d"), ("d", "a"), ("d", "c"), ("dm", "a"), ("a", "dm"), ("dm", "d"), ("hh", "c"), ("c", "hh"),
                ("hh", "d"), ("dm", "hh")]
@@ -604,6 +637,10 @@ BM = [["bref", "fm"], ["not", ["bref", "fm"]], ["cmp", "==", node("wm"), num("50
       ["cmp", "==", node("wm"), num("1", "m")], ["cmp", ">", node("k3"), node("k2")],
       ["cmp", "==", node("k3"), node("k2")], ["cmp", "<=", node("ms"), node("k2")],
       ["cmp", "!=", node("sm"), node("s")], ["cmp", "<", node("cnt"), num("8")]]
+# truth atoms on magnitudes <= 1e-8 in the unit of the node (false, true, false, false, true, true)
+BT = [["cmp", "==", node("gap"), num("2", "nm")], ["cmp", "!=", node("gap"), num("2", "nm")],
+      ["cmp", ">=", node("gap"), num("5", "nm")], ["cmp", "==", node("rate"), num("8e-12")],
+      ["cmp", "<=", node("gap"), num("1", "nm")], ["cmp", "<", node("gap2"), node("wide")]]
 LOPS = ["&&", "||"]
 
 
@@ -656,6 +693,8 @@ def log_streams(tier, seed):
     S.append(("log/modified1", "custom", lambda: g_conn(1, BM)))
     S.append(("log/modified2", "custom", lambda: g_conn(2, BM[:5] if q else BM)))
     S.append(("log/modified-group", "custom", lambda: g_conn_group(2, BM[:4])))
+    S.append(("log/tiny-conn1", "custom", lambda: g_conn(1, BT)))
+    S.append(("log/tiny-group1", "plain", lambda: g_conn_group(1, BT)))
     return S
 
 
@@ -670,6 +709,8 @@ def infile_log_streams(tier, seed):
     S.append(("ilog/api-single", "custom-api", lambda: g_cmp(True, ops=["=="])))
     S.append(("ilog/modified1", "custom", lambda: g_conn(1, BM)))
     S.append(("ilog/modified2", "plain", lambda: g_conn(2, BM[:5])))
+    S.append(("ilog/tiny-conn1", "plain", lambda: g_conn(1, BT)))
+    S.append(("ilog/tiny-group1", "custom", lambda: g_conn_group(1, BT[:4])))
     return S
 
 
@@ -839,6 +880,7 @@ def _solve_num(envname, text, unit):
 
 
 _MODIFIED = {"wm", "ws", "wt", "cnt", "fm", "sm", "dm"}
+_TINY = {"gap", "wide", "gap2", "rate", "rate2"}
 
 
 def _ref_tags(ast, tags):
@@ -847,6 +889,8 @@ def _ref_tags(ast, tags):
         tags.add("custom-unit-defined-in-non-base-unit")
     if names & _MODIFIED:
         tags.add("node-modified-after-definition")
+    if names & _TINY:
+        tags.add("node-magnitude<=1e-8")
 
 
 def _num_tags(ast, envname, notes=()):
@@ -1483,6 +1527,316 @@ def hist_streams(tier, seed):
     return S
 
 
+# =================================================================================================== documents (E1)
+# Sequences of DIP documents in ONE process that define the same custom unit symbol differently (`$unit len = 2 m`
+# in the first text, `$unit len = 5 m` in the next, ...; in the text or through DIP.add_unit).  "Custom units defined
+# in the same text are usable" and "the result ... equals the exact result" are demanded of every document, whatever
+# the process evaluated before: every probe of every document is compared with the reference evaluator in which
+# [len] has the definition of THAT document.  One case = one whole sequence (so that a replay in a fresh process sees
+# the same history); everything the library keeps at module / class level is put back before and after each case.
+REDEF_DEFS = [("2", "m"), ("5", "m"), ("10", "cm"), ("3", "s")]        # definitions of [len] (the last: another dimension)
+REDEF_MODES = ("text", "api")
+REDEF_NODES = [("a", "float", 2.0, "m", "a float = 2 m"), ("t", "float", 4.0, "s", "t float = 4 s"),
+               ("d", "float", 1.0, "[len]", "d float = 1 [len]"), ("e", "float", 0.5, "[len]", "e float = 0.5 [len]")]
+L3len = lit("3", "[len]")
+REDEF_ALPHABET = [L3len, Rd, Ra, Rt]
+REDEF_ALPHABET_THOROUGH = [L3len, Rd, Ra, Rt, L1len, lit("2", "s"), L3]
+REDEF_INFILE = [L3len, Rd, Ra]
+
+
+def _redef_num_probes(tier):
+    al = REDEF_ALPHABET if tier == "quick" else REDEF_ALPHABET_THOROUGH
+    out = list(g_flat(0, al)) + list(g_flat(1, al))
+    out += [flat([L3len, Ra, Rd], ["+", "-"]), flat([Ra, L3len, Rd], ["+", "*"]), par(flat([Rd, L3len], ["+"])),
+            flat([par(flat([Ra, Rd], ["+"])), L3len], ["/"]), fn("pow", Rd, lit("2")),
+            fn("exp", flat([L3len, Rd], ["/"]))]
+    return out
+
+
+def _redef_log_probes():
+    out = []
+    lits = [num("1", "[len]"), num("2", "m"), num("5", "m"), num("10", "cm"), num("3", "s"), num("0.5", "[len]"),
+            num("20", "[len]"), num("0.4", "[len]"), num("1.00001", "[len]")]
+    for op in ("==", "<", ">="):
+        for n in ("a", "d", "t"):
+            for l in lits:
+                out.append(["cmp", op, node(n), l])
+                out.append(["cmp", op, l, node(n)])
+        for l, r in (("a", "d"), ("d", "a"), ("d", "e"), ("e", "d"), ("t", "d"), ("d", "t")):
+            out.append(["cmp", op, node(l), node(r)])
+    return out
+
+
+def _redef_infile_probes():
+    return list(g_flat(0, REDEF_INFILE)) + list(g_flat(1, REDEF_INFILE))
+
+
+_MODSTATE = None
+_CONTAINERS = (list, dict, set)
+
+
+def _modstate_snapshot():
+    """remember everything the library keeps at module level or class level: the bindings of every scinumtools module
+    (other than modules / functions / classes), and the content of every list / dict / set reachable from a module
+    attribute, a class attribute or a default argument through lists / dicts / sets / tuples"""
+    global _MODSTATE
+    import sys
+    import types
+    import scinumtools.dip                        # noqa: F401  (everything the solvers use must be loaded first)
+    import scinumtools.dip.solvers                # noqa: F401
+    import scinumtools.units                      # noqa: F401
+    import scinumtools.solver                     # noqa: F401
+    mods = [m for n, m in sorted(sys.modules.items())
+            if m is not None and (n == "scinumtools" or n.startswith("scinumtools."))]
+    bindings, cont, seen = [], {}, set()
+
+    def reach(obj, depth=0):
+        if isinstance(obj, _CONTAINERS):
+            if id(obj) in cont or depth > 4 or len(obj) > 5000:
+                return
+            cont[id(obj)] = (obj, obj.copy())
+            for x in (obj.values() if isinstance(obj, dict) else list(obj)):
+                reach(x, depth + 1)
+        elif isinstance(obj, tuple) and depth <= 4:
+            for x in obj:
+                reach(x, depth + 1)
+
+    def reach_fn(f):
+        f = f.__func__ if isinstance(f, (staticmethod, classmethod)) else f
+        if isinstance(f, types.FunctionType):
+            reach(f.__defaults__ or ())
+            reach(tuple((f.__kwdefaults__ or {}).values()))
+
+    for m in mods:
+        keep = {}
+        for name, val in list(vars(m).items()):
+            if name.startswith("__"):
+                continue
+            if isinstance(val, types.ModuleType):
+                continue
+            if isinstance(val, type):
+                if getattr(val, "__module__", "").startswith("scinumtools") and id(val) not in seen:
+                    seen.add(id(val))
+                    keep_c = {}
+                    for cn, cv in list(vars(val).items()):
+                        if cn.startswith("__") and cn != "__init__":
+                            continue
+                        reach(cv)
+                        reach_fn(cv)
+                        if not callable(cv) and not isinstance(cv, (staticmethod, classmethod, property)) \
+                                and not hasattr(cv, "__get__"):
+                            keep_c[cn] = cv
+                    bindings.append((val, keep_c, set(vars(val))))
+                continue
+            if isinstance(val, (types.FunctionType, types.BuiltinFunctionType)):
+                reach_fn(val)
+                continue
+            reach(val)
+            keep[name] = val
+        bindings.append((m, keep, set(vars(m))))
+    _MODSTATE = (bindings, cont)
+
+
+def _modstate_restore():
+    """put the remembered state back in place -> names of what had changed"""
+    if _MODSTATE is None:
+        return []
+    changed = []
+    bindings, cont = _MODSTATE
+    for obj, old in cont.values():
+        if isinstance(obj, dict):
+            same = len(obj) == len(old) and all(k in obj and obj[k] is v for k, v in old.items())
+        elif isinstance(obj, list):
+            same = len(obj) == len(old) and all(x is y for x, y in zip(obj, old))
+        else:
+            same = len(obj) == len(old) and obj == old
+        if not same:
+            changed.append(type(obj).__name__)
+            if isinstance(obj, list):
+                obj[:] = old
+            else:
+                obj.clear()
+                obj.update(old)
+    for owner, keep, names in bindings:
+        cur = vars(owner)
+        for name, val in keep.items():
+            if name not in cur or cur[name] is not val:
+                changed.append("%s.%s" % (getattr(owner, "__name__", "?"), name))
+                setattr(owner, name, val)
+        for name in set(cur) - names:
+            if not name.startswith("__"):
+                changed.append("%s.%s(new)" % (getattr(owner, "__name__", "?"), name))
+                try:
+                    delattr(owner, name)
+                except Exception:
+                    pass
+    return changed
+
+
+def _redef_parse(mode, number, unit, infile):
+    """one document: definition of [len], the nodes, the in-file probes -> environment"""
+    from scinumtools.dip import DIP
+    lines = [ln for *_, ln in REDEF_NODES]
+    lines += ['r%d float = ("%s") %s' % (i, text, u) for i, (text, u) in enumerate(infile)]
+    with DIP() as dip:
+        if mode == "api":
+            dip.add_unit("len", float(number) if "." in number else int(number), unit)
+        else:
+            lines.insert(0, "$unit len = %s %s" % (number, unit))
+        dip.add_string("\n".join(lines) + "\n")
+        return dip.parse()
+
+
+def _redef_units(refv):
+    dims = refv[1]
+    if dims == R.NODIM:
+        return [None]
+    units = [R.si_unit(dims)]
+    if dims == R.UNITS["[len]"][1]:
+        units.append("[len]")
+    return units
+
+
+def _redef_solve_num(env, text, unit):
+    from scinumtools.dip.solvers import NumericalSolver
+    with NumericalSolver(env) as s:
+        r = s.solve(text, unit)
+    if unit is None:
+        if hasattr(r, "units") and r.units():
+            return ("dimensional", repr(r))
+        return float(r.value())
+    return r
+
+
+def _redef_solve_log(env, text):
+    from scinumtools.dip.solvers import LogicalSolver
+    with LogicalSolver(env) as s:
+        return s.solve(text)
+
+
+def run_redef(docs, tier, sh):
+    """docs: list of [mode, number text, unit]; -> failure record (first probe that disagrees) or None"""
+    _modstate_restore()
+    _clean(force=True)
+    try:
+        return _run_redef(docs, tier, sh)
+    finally:
+        _modstate_restore()
+        _clean(force=True)
+
+
+def _run_redef(docs, tier, sh):
+    sub = "unit-redefinition"
+    refenv = R.Env({n: (k, v, u) for n, k, v, u, _ in REDEF_NODES})
+    seen_defs = []
+    nprobes = 0
+    for di, (mode, number, unit) in enumerate(docs):
+        base = ["document=%d-of-%d" % (di + 1, len(docs)), "definition:" + mode, "env:redefinition"]
+        if any(d != (number, unit) for d in seen_defs):
+            base.append("symbol-defined-differently-by-an-earlier-document")
+        if any(R.UNITS[d[1]][1] != R.UNITS[unit][1] for d in seen_defs):
+            base.append("earlier-definition-of-another-dimension")
+        seen_defs.append((number, unit))
+
+        def case_of(kind, ast, text, u):
+            return dict(kind="redef", env="custom", tier=tier, docs=[list(d) for d in docs], doc=di, probe=kind,
+                        ast=ast, unit=u, text="%s  [document %d: len = %s %s]" % (text, di + 1, number, unit))
+
+        def fix(bad, kind):
+            bad["sub"] = sub
+            bad["tags"] = sorted(set(t for t in bad["tags"] if not t.startswith("env:")) | set(base)
+                                 | {"probe:" + kind})
+            return bad
+
+        with R.custom_units({"[len]": (number, unit)}):
+            # in-file probes: node values computed while the document is parsed
+            infile = []
+            for ast in _redef_infile_probes():
+                try:
+                    refv = R.num_eval(ast, refenv, set())
+                    u = _redef_units(refv)[-1]
+                except (RefRaise, RefSkip):
+                    continue
+                if u is not None:
+                    infile.append((ast, R.num_render(ast), u, refv))
+            o = outcome(_redef_parse, mode, number, unit, [(t, u) for _, t, u, _ in infile], timeout=60)
+            _clean(force=o[0] == "err")
+            if o[0] != "ok":
+                sh.count(sub + ":FAIL-document")
+                return failure(sub, case_of("document", None, "<whole document>", None), "the document parses",
+                               list(o[1:]), tags=sorted(base + ["probe:document"]), behaviour=_beh(o))
+            env = o[1]
+            found = {n.name: n for n in env.nodes}
+            scratch = Shard()
+            for i, (ast, text, u, refv) in enumerate(infile):
+                n = found.get("r%d" % i)
+                obs = ("node", None, None) if n is None or n.value is None else \
+                    ("node", n.value.value, getattr(n.value, "unit", None))
+                nprobes += 1
+                bad = _judge_num(sub, case_of("infile-num", ast, text, u), ("ok", refv), ("ok", obs), set(), scratch)
+                if bad:
+                    sh.count(sub + ":FAIL-infile-numerical")
+                    return fix(bad, "infile-num")
+            # stand-alone numerical probes
+            for ast in _redef_num_probes(tier):
+                text = R.num_render(ast)
+                notes = set()
+                try:
+                    refv = ("ok", R.num_eval(ast, refenv, notes))
+                    units = _redef_units(refv[1])
+                except RefRaise as e:
+                    refv, units = ("raise", str(e)), [None]
+                except RefSkip:
+                    continue
+                for u in units:
+                    nprobes += 1
+                    bad = _judge_num(sub, case_of("num", ast, text, u), refv,
+                                     outcome(_redef_solve_num, env, text, u), notes, scratch)
+                    _clean()
+                    if bad:
+                        sh.count(sub + ":FAIL-numerical")
+                        return fix(bad, "num")
+            # logical probes (comparisons across dimensions etc. are not demanded: RefSkip)
+            for ast in _redef_log_probes():
+                text = R.log_render(ast)
+                try:
+                    exp = R.log_eval(ast, refenv)
+                except RefSkip:
+                    continue
+                nprobes += 1
+                tags = sorted(R.log_features(ast, refenv))
+                o = outcome(_redef_solve_log, env, text)
+                _clean()
+                case = case_of("log", ast, text, None)
+                if o[0] == "err":
+                    sh.count(sub + ":FAIL-logical")
+                    return fix(failure(sub, case, exp, list(o[1:]), tags=tags, behaviour=_beh(o)), "log")
+                t = _truth(o[1])
+                if t is not exp:
+                    sh.count(sub + ":FAIL-logical")
+                    return fix(failure(sub, case, exp, _show(t), tags=tags, behaviour="wrong-truth-value"), "log")
+                sh.count(sub + (":true" if exp else ":false"))
+            for k, v in scratch.hist.items():
+                sh.count(k, v)
+    sh.add_extra("redefinition_documents", len(docs))
+    sh.add_extra("redefinition_probe_evaluations", nprobes)
+    return None
+
+
+def g_redef(n, modes):
+    """every sequence of n documents: definitions x way of defining"""
+    for defs in product(REDEF_DEFS, repeat=n):
+        for ms in product(modes, repeat=n):
+            yield [[m, d[0], d[1]] for m, d in zip(ms, defs)]
+
+
+def redef_streams(tier, seed):
+    S = [("redef/pairs", lambda: g_redef(2, REDEF_MODES))]
+    if tier == "thorough":
+        S.append(("redef/triples", lambda: g_redef(3, REDEF_MODES)))
+    return S
+
+
 # =================================================================================================== plan / shards
 def _streams(tier, seed):
     """name -> (runner kind, env, generator factory, extra)"""
@@ -1497,6 +1851,8 @@ def _streams(tier, seed):
         out[name] = ("ilog", env, g, None)
     for name, g in hist_streams(tier, seed):
         out[name] = ("hist", "custom", g, None)
+    for name, g in redef_streams(tier, seed):
+        out[name] = ("redef", "custom", g, None)
     out["tpl/all"] = ("tpl", "plain", lambda: g_tpl(tier), None)
     out["tpl/format-mismatch"] = ("tpl", "plain", lambda: g_tpl_mismatch(), None)
     out["tpl/custom-env"] = ("tpl", "custom", lambda: ([r] for r in _valid_refs(_REF["plain"]) + _custom_refs()), None)
@@ -1506,7 +1862,7 @@ def _streams(tier, seed):
 
 
 # approximate cost per case (ms) used only to size the shards
-_COST = dict(num=1.6, inum=5.0, log=0.5, ilog=3.0, tpl=0.35, itpl=3.0, hist=12.0)
+_COST = dict(num=1.6, inum=5.0, log=0.5, ilog=3.0, tpl=0.35, itpl=3.0, hist=12.0, redef=600.0)
 _SHARD_MS = dict(quick=6000.0, thorough=60000.0)
 
 
@@ -1562,6 +1918,19 @@ def run_shard(desc):
                 sh.count("history:agrees")
                 if len(sh.samples) < 2 and sh.evaluations % 101 == 0:
                     sh.sample(dict(sub="history", calls=[_h_text(HCALLS[i]) for i in idx]))
+    elif kind == "redef":
+        for docs in gen:
+            sh.evaluations += 1
+            h = _hash("redef", tier, repr(docs))
+            sh.add_to_set("cases", h)
+            sh.add_to_set("nontrivial", h)
+            bad = run_redef(docs, tier, sh)
+            if bad:
+                sh.fail(bad)
+            else:
+                sh.count("unit-redefinition:sequence-agrees")
+                if len(sh.samples) < 1:
+                    sh.sample(dict(sub="unit-redefinition", documents=docs))
     _clean(force=True)
     sh.add_extra("evaluations/" + name.split("/")[0], sh.evaluations - before)
     sh.add_extra("unit_table_restores", _LEAKS[0])
@@ -1610,6 +1979,8 @@ def replay(rec):
             return _judge_tpl(rec["sub"], c, R.tpl_eval(c["ast"], _REF[env]), o, sh)
         if kind == "hist":
             return run_history(None, sh, calls=[list(x) for x in c["calls"]])
+        if kind == "redef":
+            return run_redef([list(d) for d in c["docs"]], c["tier"], sh)
         if kind == "batch":
             render = dict(num=R.num_render, log=R.log_render, tpl=R.tpl_render)[c["ikind"]]
             items = [(a, render(a), u) for a, u in c["items"]]
@@ -1645,6 +2016,11 @@ def finish(total, tier, seed):
         need(sub + ":false", 100)
     need("template:agrees", 100)
     need("history:agrees", 100)
+    need("unit-redefinition:agrees", 100)
+    need("unit-redefinition:refused-as-demanded", 20)
+    need("unit-redefinition:true", 100)
+    need("unit-redefinition:false", 100)
+    need("unit-redefinition:sequence-agrees", 16)
     hstates = total.sets.get("hist_states", set())
     total.states = len(hstates)
     need("infile-template:agrees", 50)
@@ -1661,6 +2037,19 @@ def finish(total, tier, seed):
                   "templates, failing calls) on one environment; each result == result on a fresh environment and "
                   "the environment's node values unchanged; states = distinct canonical environment snapshots"
                   % len(HCALLS),
+        document_sequences="every ordered pair (thorough: + every triple) of documents over %d definitions of [len] "
+                           "(%s) x 2 ways of defining it ($unit line, DIP.add_unit), all in one process; in every "
+                           "document: flat numerical expressions with <=1 operator over %s (+ 6 larger shapes) in SI "
+                           "unit and in [len], stand-alone and (over %s) as node values, and == < >= comparisons of "
+                           "3 nodes with 9 literals (both orders) and 6 node pairs, each against the reference "
+                           "evaluator with the definition of that document; module- and class-level state of the "
+                           "library restored before and after every sequence"
+                           % (len(REDEF_DEFS), ", ".join("%s %s" % d for d in REDEF_DEFS),
+                              " ".join(R.num_render(x) for x in (REDEF_ALPHABET if tier == "quick"
+                                                                 else REDEF_ALPHABET_THOROUGH)),
+                              " ".join(R.num_render(x) for x in REDEF_INFILE)),
+        redefinition_documents=total.extra.get("redefinition_documents", 0),
+        redefinition_probe_evaluations=total.extra.get("redefinition_probe_evaluations", 0),
         distinct_nontrivial=len(nontriv),
         distinct_cases=len(cases),
         evaluations_by_family=per_sub,
@@ -1678,8 +2067,10 @@ def finish(total, tier, seed):
             logical="6 comparison operators x (node, literal) pairs incl. relative offsets 1e-9, 1e-5, 1e-3 in the "
                     "same and in convertible units, both operand orders, node-node, int node vs decimal literal, "
                     "string/bool equalities; modified float/int/bool/str nodes; two int nodes in different units "
-                    "(16 ordered pairs); magnitudes 1e-3 and 5e6; ~, !{ref}, ~!{ref}; && || with <=4 connectives, "
-                    "groups, nesting <=2",
+                    "(16 ordered pairs); magnitudes 1e-3 and 5e6; magnitudes <= 1e-8 in the unit of the node (float "
+                    "nodes 1e-9 m, 3e-9 m, 2 nm, 4e-12, 8e-12 vs 30 literals at relative offsets 0, 1e-10, 2e-5, 1e-3 "
+                    "and factors 2 .. 1250, written in m / nm / km, 12 node pairs, && || and negated groups over 6 "
+                    "such comparisons); ~, !{ref}, ~!{ref}; && || with <=4 connectives, groups, nesting <=2",
             template="{{ref}}, {{ref}:fmt} for 13 formats x 18 scalar nodes (6 of them modified after definition), string slices, array elements, plain "
                      "braces, <=3 pieces, adjacent references",
             in_file="numerical / logical / template expressions as node values of float / bool / str nodes in DIP "
@@ -1694,12 +2085,16 @@ def finish(total, tier, seed):
 MANIFEST = dict(
     text="Complete enumeration of three bounded DIP expression grammars (numerical: <=4 blank-separated + - * / "
          "operators, parentheses and functions nested <=2, unit-carrying literals incl. angle units inside sin/cos, "
-         "node references and a custom unit; logical: 6 comparisons incl. relative offsets 1e-9/1e-5/1e-3, negation, definedness tests, && || "
+         "node references and a custom unit; logical: 6 comparisons incl. relative offsets 1e-9/1e-5/1e-3 at magnitudes "
+         "from 4e-12 to 5e6 in the unit of the node, negation, definedness tests, && || "
          "with groups; templates: references with slices and 13 format specs, plain braces, adjacent references) "
          "executed on NumericalSolver/LogicalSolver/TemplateSolver and as node values through DIP.parse, each "
          "compared with a reference evaluator over the generating AST. Coverage statement: every expression within "
          "the bounds evaluates to the exact value (1e-12 x error scale), refuses additions across dimensions, "
-         "yields the documented truth value and the Python-formatted text.",
+         "yields the documented truth value and the Python-formatted text; and in every ordered pair (thorough: "
+         "triple) of documents parsed in one process that define the custom unit [len] differently (2 m, 5 m, 10 cm, "
+         "3 s; $unit line or DIP.add_unit) each document's numerical / logical expressions use the definition of "
+         "their own document.",
     note="Trusted: the AST reference evaluators and renderers (exact Fractions, hand-written unit factors, Python "
          "format()); inputs on which the documentation is silent are excluded (listed in the module docstring). "
          "Expressions beyond the bounds rely on the small-scope hypothesis.",
